@@ -120,20 +120,23 @@ def extent_identities(chk, repo, clause):
     f2, p2 = one_path(repo, 'extent.array_center', {'extent': ie})
     chk.ob(clause, 'N-identity', 'extent.intersection_shift', '= array_center(intersection_extent)',
            p.ret == p2.ret, f'{fmt(p.ret)} vs {fmt(p2.ret)}', f.loc(p.node))
-    f, p = one_path(repo, 'extent.intersection_slices', {'a': a, 'b': b}, inline=extent_inline(repo))
-    sl = p.ret
-    try:
-        (arow, acol), (brow, bcol) = [x.items for x in sl.items]
-    except Exception:
-        raise AnalysisError('intersection_slices does not return ((row, col), (row, col))')
-    for nm, sa, sb, lo, hi, amin, bmin in (('row', arow, brow, irmin, irmax, a.items[0], b.items[0]),
-                                           ('col', acol, bcol, icmin, icmax, a.items[2], b.items[2])):
+    f, spaths, _ = analyse(repo, 'extent.intersection_slices', config={'a': a, 'b': b}, inline=extent_inline(repo))
+    # the path on which the slices are built (a version that goes through intersection_shape also has a path for the empty
+    # intersection, which returns no window)
+    cand = [q for q in returns(spaths) if isinstance(q.ret, Tup) and len(q.ret) == 2 and
+            all(isinstance(x, Tup) and len(x) == 2 and all(isinstance(y, Slice) for y in x.items) for x in q.ret.items)]
+    if not cand:
+        raise AnalysisError('extent.intersection_slices: no path returning ((row, col), (row, col))')
+    for p, nm, sa, sb, lo, hi, amin, bmin in [(q, *t) for q in cand for t in (
+            ('row', q.ret.items[0].items[0], q.ret.items[1].items[0], irmin, irmax, a.items[0], b.items[0]),
+            ('col', q.ret.items[0].items[1], q.ret.items[1].items[1], icmin, icmax, a.items[2], b.items[2]))]:
         la, lb = sa.hi - sa.lo, sb.hi - sb.lo
+        from ..rules import identity_holds
         chk.ob(clause, 'N-identity', 'extent.intersection_slices', f'{nm} slices have the intersection length',
-               la == lb and la == hi - lo + 1, f'lengths {fmt(la)} / {fmt(lb)}; intersection {fmt(hi - lo + 1)}',
+               la == lb and identity_holds(la, hi - lo + 1), f'lengths {fmt(la)} / {fmt(lb)}; intersection {fmt(hi - lo + 1)}',
                f.loc(p.node))
         chk.ob(clause, 'N-identity', 'extent.intersection_slices', f'{nm} slices start at the intersection',
-               sa.lo + amin == lo and sb.lo + bmin == lo,
+               identity_holds(sa.lo + amin, lo) and identity_holds(sb.lo + bmin, lo),
                f'absolute starts {fmt(sa.lo + amin)} / {fmt(sb.lo + bmin)}; intersection starts at {fmt(lo)}',
                f.loc(p.node))
     # intersection_shape
